@@ -54,7 +54,7 @@ func runC05(c *Ctx) {
 			tbC05(c, env, n)
 		}
 	}()
-	r.Rule = "programs as for C02; for each program one uninterrupted reference run, then runs with mrp killed (SIGKILL semantics: object dropped, _lock removed by the operator, in-flight jobs die with a dead pid recorded, or survive with probability 0.3) before event k for k ranging over the reference history (quick: a PRNG sample of crash points per program + double crashes; thorough: every event index), restarted the way mrp restarts (Reattach with source check, Reset, RestartLocalJobs, LoadMetadata); monitors: the restarted pipestance completes, its top-level outputs equal the reference run's, no job whose successful completion was recorded before the crash is executed again, _lock is gone after completion; every history (with crash/restart/reset events) is replayed in the Lean Sched model; non-trivial = crash happened while >=1 job was in flight or finished-but-unnoticed; distinct = (program, crash points, history) hash"
+	r.Rule = "programs as for C02; for each program one uninterrupted reference run, then runs with mrp killed (SIGKILL semantics: object dropped, _lock removed by the operator, in-flight jobs die with a dead pid recorded, or survive with probability 0.3) before event k for k ranging over the reference history (quick: a PRNG sample of crash points per program + double crashes; thorough: every event index), restarted the way mrp restarts (Reattach with source check, Reset, RestartLocalJobs, LoadMetadata), every fourth single-crash run in Config.FullStageReset mode (there finished work of a Running/Failed node is redone by design and not reported); monitors: the restarted pipestance completes, its top-level outputs equal the reference run's, no job whose successful completion was recorded before the crash is executed again, _lock is gone after completion; every history (with crash/restart/reset events) is replayed in the Lean Sched model (`mode fullreset` for the FullStageReset runs) and must end in a model state in which every node is finished; non-trivial = crash happened while >=1 job was in flight or finished-but-unnoticed; distinct = (program, crash points, history) hash"
 	n := 40
 	perProg := 4
 	if c.Thorough {
@@ -98,11 +98,19 @@ func runC05(c *Ctx) {
 		}
 		// mrp killed during / right after post-processing (negative = PostProcessCrash mode)
 		points = append(points, []int{-1}, []int{-2})
-		for _, pt := range points {
+		for pi, pt := range points {
 			s := &TASpec{Name: fmt.Sprintf("%s#crash%v", p.Name, pt), Src: p.Src, MroPaths: p.MroPaths, Seed: c.Seed, StepBias: 0.4,
 				StartSeparate: 0.3, CrashAt: pt, CrashSurvive: 0.3, WantEvents: true, WantTrace: true, TimeoutS: 40}
 			if pt[0] < 0 {
 				s.CrashAt, s.PostProcessCrash, s.WantTrace = nil, -pt[0], false
+			} else if pi%4 == 3 {
+				// Config.FullStageReset (MRO_FULLSTAGERESET): every node that was Running or Failed when
+				// mrp re-attaches is wiped and redone (fullreset_restart_completes; model `mode fullreset`)
+				s.FullReset = true
+				// in-flight jobs die with mrp: a job that outlives mrp while its whole stage directory is
+				// removed and the stage re-run is outside what this mode is meant for (local mode)
+				s.CrashSurvive = 0
+				s.Name += "#fullreset"
 			}
 			cases = append(cases, crashCase{p, ref, s})
 			specs = append(specs, s)
@@ -138,8 +146,14 @@ func runC05(c *Ctx) {
 			r.hist("crash_point_after_end")
 		}
 		input := map[string]interface{}{"program": cs.prog.Src, "crash_at": cs.spec.CrashAt, "seed": cs.spec.Seed, "history": excerpt(res.Events, 250)}
+		kp := "C05:" // key prefix: FullStageReset runs are a class of their own
+		if cs.spec.FullReset {
+			r.hist("fullreset_runs")
+			input["mode"] = "FullStageReset"
+			kp = "C05:fullreset:"
+		}
 		if res.Final != "complete" {
-			r.violate(Violation{Kind: "property", Key: "C05:not-completed:" + finalClass(res.Final),
+			r.violate(Violation{Kind: "property", Key: kp + "not-completed:" + finalClass(res.Final),
 				What:  fmt.Sprintf("after kill+restart the pipestance ended %q (%s) although the uninterrupted run completes", finalClass(res.Final), firstLine(res.ErrMsg)),
 				Input: input})
 			continue
@@ -157,27 +171,62 @@ func runC05(c *Ctx) {
 			}
 		}
 		if !jsonEqual(got, want) {
-			r.violate(Violation{Kind: "property", Key: "C05:outputs-differ",
+			r.violate(Violation{Kind: "property", Key: kp + "outputs-differ",
 				What:  "final outputs after kill+restart differ from the uninterrupted run",
 				Input: input, Impl: string(res.TopOuts), Expect: string(cs.ref.TopOuts)})
 		}
 		if bad := relaunchedAfterDone(res.Events); len(bad) > 0 {
-			r.violate(Violation{Kind: "property", Key: "C05:finished-job-rerun",
-				What:  "a job whose completion had been recorded was executed again after restart: " + bad[0],
-				Input: input, Impl: bad})
+			if cs.spec.FullReset {
+				// by design of that mode (negative witness fullreset_wipes_finished_work)
+				r.hist("fullreset_redid_finished_work")
+			} else {
+				r.violate(Violation{Kind: "property", Key: "C05:finished-job-rerun",
+					What:  "a job whose completion had been recorded was executed again after restart: " + bad[0],
+					Input: input, Impl: bad})
+			}
 		}
 		if res.LockLeft {
-			r.violate(Violation{Kind: "property", Key: "C05:lock-left", What: "_lock still present after completion", Input: input})
+			r.violate(Violation{Kind: "property", Key: kp + "lock-left", What: "_lock still present after completion", Input: input})
 		}
 		if bad := monitorOrder(cs.prog, res.Events); len(bad) > 0 {
-			r.violate(Violation{Kind: "property", Key: "C05:order-after-restart:" + classifyOrder(bad[0]),
+			r.violate(Violation{Kind: "property", Key: kp + "order-after-restart:" + classifyOrder(bad[0]),
 				What: "after kill+restart a job started before something it depends on had finished: " + bad[0], Input: input, Impl: bad})
 		}
+		if cs.spec.FullReset && len(res.Trace) > 0 {
+			// the model's FullStageReset semantics are selected by a header line before `start`
+			tr := make([]string, 0, len(res.Trace)+1)
+			for _, l := range res.Trace {
+				if strings.TrimSpace(l) == "start" {
+					tr = append(tr, "mode fullreset")
+				}
+				tr = append(tr, l)
+			}
+			res.Trace = tr
+		}
 		if ok, detail, done := replayInModel(c, res); done && !ok {
-			r.violate(Violation{Kind: "correspondence", Key: "C05:sched-replay-reject:" + classifyReject(detail),
+			key := "C05:sched-replay-reject:"
+			if cs.spec.FullReset {
+				key = "C05:sched-replay-reject-fullreset:"
+			}
+			r.violate(Violation{Kind: "correspondence", Key: key + classifyReject(detail),
 				What:   "the Lean Sched model rejects a real crash/restart history: " + detail,
-				Input:  map[string]interface{}{"program": cs.prog.Src, "crash_at": cs.spec.CrashAt, "seed": cs.spec.Seed, "trace": res.Trace},
+				Input:  map[string]interface{}{"program": cs.prog.Src, "crash_at": cs.spec.CrashAt, "seed": cs.spec.Seed, "fullreset": cs.spec.FullReset, "trace": res.Trace},
 				Broken: "correspondence Sched.replay (restart semantics)"})
+		} else if done {
+			// restart_completes / fullreset_restart_completes conclude `Finished`: the model's end state of a
+			// real interrupted run that completed must be one in which every node is finished
+			end := schedEndNote(detail)
+			cl := end
+			if i := strings.Index(cl, ":"); i >= 0 {
+				cl = cl[:i]
+			}
+			r.hist("model_end_" + cl)
+			if end != "finished" && end != "done" {
+				r.violate(Violation{Kind: "correspondence", Key: "C05:model-not-finished:" + cl,
+					What:   "the restarted pipestance completed but the model's end state is not finished: " + detail,
+					Input:  map[string]interface{}{"program": cs.prog.Src, "crash_at": cs.spec.CrashAt, "seed": cs.spec.Seed, "fullreset": cs.spec.FullReset, "trace": res.Trace},
+					Broken: "Finished (Props.C05.restart_completes) corresponds to Pipestance complete"})
+			}
 		}
 	}
 }
@@ -194,7 +243,7 @@ func firstLine(s string) string {
 	return s
 }
 
-var faultKinds = []string{"errors", "assert", "exit", "badouts", "missingkey", "wrongtype", "badstagedefs"}
+var faultKinds = []string{"errors", "assert", "exit", "badouts", "nullouts", "missingkey", "wrongtype", "badstagedefs"}
 
 func runC06(c *Ctx) {
 	r := c.Res
@@ -254,10 +303,10 @@ func runC06(c *Ctx) {
 				if k == "badstagedefs" && !strings.HasSuffix(j, ".split") {
 					continue
 				}
-				if (k == "badouts" || k == "missingkey" || k == "wrongtype") && strings.HasSuffix(j, ".split") {
+				if (k == "badouts" || k == "nullouts" || k == "missingkey" || k == "wrongtype") && strings.HasSuffix(j, ".split") {
 					continue
 				}
-				if (k == "badouts" || k == "missingkey" || k == "wrongtype") && p.Deps.NoOuts[nodePathOfJob(j[:strings.LastIndex(j, ".")])] {
+				if (k == "badouts" || k == "nullouts" || k == "missingkey" || k == "wrongtype") && p.Deps.NoOuts[nodePathOfJob(j[:strings.LastIndex(j, ".")])] {
 					// a stage without output parameters has no outputs to be missing, unparseable or
 					// ill-typed (mrp never reads its _outs)
 					continue
@@ -421,6 +470,16 @@ func runC06(c *Ctx) {
 			if bad := relaunchedAfterDone(res.Events); len(bad) > 0 {
 				r.violate(Violation{Kind: "property", Key: "C06:finished-job-rerun:" + cs.kind,
 					What: "restart re-executed work that had finished: " + bad[0], Input: input, Impl: bad})
+			}
+		}
+		for _, l := range res.Trace {
+			if strings.HasPrefix(l, "fatal ") {
+				// Node.getFatalError's answer, compared by the driver with the model's fatalError
+				r.hist("getFatalError_compared_with_model")
+				f := strings.Fields(l)
+				if len(f) == 5 {
+					r.hist("fatal_" + strings.SplitN(f[3], ":", 2)[0] + "_" + f[4])
+				}
 			}
 		}
 		if ok, detail, done := replayInModel(c, res); done && !ok {
